@@ -1,6 +1,7 @@
 use jrsonnet_evaluator::{
 	bail,
 	manifest::{escape_string_json_buf, ManifestFormat, ToStringFormat},
+	stack::check_depth,
 	Result, Val,
 };
 
@@ -20,6 +21,7 @@ impl PythonFormat {
 
 impl ManifestFormat for PythonFormat {
 	fn manifest_buf(&self, val: Val, buf: &mut String) -> Result<()> {
+		let _guard = check_depth()?;
 		match val {
 			Val::Bool(true) => buf.push_str("True"),
 			Val::Bool(false) => buf.push_str("False"),
